@@ -214,6 +214,14 @@ def c04_platforms(repo):
     return out
 
 
+def c18_all_platforms_together(repo):
+    """one case holding every shipped platform: the lookups run one after the other in one process"""
+    plats = c04_platforms(repo)
+    n = sum(len(p["cfg"]) + len(p["log"]) for p in plats)
+    return [{"id": "all-platforms", "platforms": plats, "lookups": n,
+             "example": "%d platforms, %d (platform, config, log) names looked up in sequence" % (len(plats), n)}]
+
+
 def c14_flag_shapes(repo):
     """shapes of the heater's flag items (Heating, CoolingDown) over all log tables"""
     shapes = {}
@@ -576,3 +584,75 @@ def c19_parse_bounded(repo, tier):
         obs.append({"name": "BOUNDED/known:%s(%d payloads)" % (k, n), "status": "refuted", "known": k, "confirmed": True, "detail": k})
     return {"name": "bounded", "backend": "bounded-native-enumeration(NOT a proof)", "bounded": True, "obligations": obs,
             "samples": [{"bounded_cases": r["cases"]}]}
+
+
+_C19_NATIVE = {}
+
+
+def _c19_native(repo):
+    import subprocess
+    if repo in _C19_NATIVE:
+        return _C19_NATIVE[repo]
+    env = dict(os.environ)
+    env["PYTHONPATH"] = os.path.join(repo, "src")
+    verif = os.path.dirname(os.path.dirname(os.path.abspath(__file__)))
+    p = subprocess.run([os.environ.get("PYVC_NATIVE_PY", "/venv/bin/python"), os.path.join(verif, "native", "c19_files_and_writer.py"), repo],
+                       capture_output=True, text=True, env=env, timeout=3000)
+    try:
+        r = json.loads(p.stdout.strip().splitlines()[-1])
+    except Exception:
+        r = {"error": (p.stdout + p.stderr)[-600:]}
+    _C19_NATIVE[repo] = r
+    return r
+
+
+def c19_shipped_files_ground(repo, tier):
+    """GROUND: the 34 shipped snapshot files are a finite closed set, enumerated completely through the real parser and
+    simulator loader (native execution: regular expressions / file iteration are outside the verifier)"""
+    r = _c19_native(repo)
+    if "error" in r:
+        return {"name": "files", "backend": "ground-native-enumeration", "obligations": [
+            {"name": "every-shipped-snapshot-parses-and-loads", "status": "unknown", "detail": r["error"]}]}
+    a = r["A"]
+    ok = a["n_bad"] == 0 and a["files"] > 0
+    return {"name": "files", "backend": "ground-native-enumeration(all shipped snapshot files, real parser + simulator loader)",
+            "obligations": [{"name": "every-shipped-snapshot-parses-to-1024-bytes-and-the-simulator-holds-them-with-its-tables(%d files, each twice in one process)" % a["files"],
+                             "status": "proved" if ok else "refuted", "detail": json.dumps(a["bad"][:3]), "witness": a["bad"][:3],
+                             "confirmed": not ok}],
+            "samples": [{"files": a["files"]}]}
+
+
+def c19_writer_parser_bounded(repo, tier):
+    """bounded stand-in (never counted as proved): GeckoShell.do_snapshot -> log file -> GeckoSnapshot.parse_log_file, native"""
+    r = _c19_native(repo)
+    if "error" in r:
+        return {"name": "writer", "backend": "bounded-native-enumeration", "bounded": True, "obligations": [
+            {"name": "BOUNDED/writer-parser-round-trip", "status": "unknown", "detail": r["error"]}]}
+    b = r["B"]
+    ok = b["n_bad"] == 0 and b["cases"] > 0
+    return {"name": "writer", "backend": "bounded-native-enumeration(NOT a proof)", "bounded": True,
+            "obligations": [{"name": "BOUNDED/snapshot-written-by-the-shell-parses-back(%d platform x config x log cases, 6 blocks, 4 names)" % b["cases"],
+                             "status": "proved" if ok else "refuted", "detail": json.dumps(b["bad"][:3]), "witness": b["bad"][:3],
+                             "confirmed": not ok}],
+            "samples": [{"bounded_cases": b["cases"]}]}
+
+
+def c14_presentation_ground(repo, tier):
+    """GROUND: the presentation clause over its whole finite domain (65536 words x 2 units), real accessor, native"""
+    import subprocess
+    env = dict(os.environ)
+    env["PYTHONPATH"] = os.path.join(repo, "src")
+    verif = os.path.dirname(os.path.dirname(os.path.abspath(__file__)))
+    p = subprocess.run([os.environ.get("PYVC_NATIVE_PY", "/venv/bin/python"), os.path.join(verif, "native", "c14_exhaustive.py")],
+                       capture_output=True, text=True, env=env, timeout=3000)
+    try:
+        r = json.loads(p.stdout.strip().splitlines()[-1])
+    except Exception:
+        return {"name": "domain", "backend": "ground-native-enumeration", "obligations": [
+            {"name": "every-word-presented-exactly", "status": "unknown", "detail": (p.stdout + p.stderr)[-400:]}]}
+    ok = r["n_bad"] == 0 and r["cases"] == 131072
+    return {"name": "domain", "backend": "ground-native-enumeration(all 65536 words x 2 units, real accessor, IEEE doubles of CPython)",
+            "obligations": [{"name": "every-stored-word-is-presented-as-raw/18-or-(raw+320)/10-and-written-back-as-the-same-word(%d cases)" % r["cases"],
+                             "status": "proved" if ok else "refuted", "detail": json.dumps(r["bad"][:3]), "witness": r["bad"][:3],
+                             "confirmed": not ok}],
+            "samples": [{"cases": r["cases"]}]}
